@@ -210,6 +210,8 @@ def random_domain_args(rng, op, x, y):
         lo = float(rng.choice([0.0, -1.0, float(rng.normal(0, 5))]))
         return (lo, lo + float(rng.choice([1.0, 10.0, float(rng.lognormal(0, 1))])))
     if op == "repeat":
+        if n <= 12 and rng.integers(0, 12) == 0:
+            return (int(rng.integers(257, 400)),)         # a year of copies of one day: more copies than a byte counts
         return (int(rng.integers(1, 4)),)
     if op == "truncate_by_value":
         i = int(rng.integers(0, n - 1))
@@ -389,7 +391,7 @@ def run_random_case(ctx, kind_, idx):
                     continue
                 op = DOMAIN[int(rng.integers(0, 10))]
                 args = random_domain_args(rng, op, sh.x, sh.y)
-                if not D.admissible(op, args, sh.x, sh.y) or len(sh.x) * (args[0] if op == "repeat" else 1) > 400:
+                if not D.admissible(op, args, sh.x, sh.y) or len(sh.x) * (args[0] if op == "repeat" else 1) > (5000 if op == "repeat" and args[0] > 200 else 400):
                     continue
                 if sh.reshaped:
                     # the working series has its own sample set: value bounds must be admissible for it as well
